@@ -4,6 +4,7 @@ import HtpModel.Cfg
 import HtpModel.Conn.Parsers
 import HtpModel.Util.Uri
 import HtpModel.Urlenc
+import HtpModel.Multipart
 
 namespace Htp.Conn
 open Htp.Gen Htp.Parse
@@ -65,8 +66,15 @@ structure Event where
 
 structure Param where
   name : Bytes
-  value : Bytes
+  value : Option Bytes            -- NULL for a multipart text part without data
   source : Nat
+  deriving Repr, DecidableEq, Inhabited
+
+/-- what is registered on a transaction's own REQUEST_BODY_DATA hook, in registration order -/
+inductive TxHook where
+  | user      -- the embedder's callback (htp_tx_register_request_body_data from inside a callback)
+  | urlenc    -- htp_ch_urlencoded_callback_request_body_data
+  | mpart     -- htp_ch_multipart_callback_request_body_data
   deriving Repr, DecidableEq, Inhabited
 
 structure Tx where
@@ -101,7 +109,9 @@ structure Tx where
   reqIgnoredLines : Nat := 0
   expectedStatus : Int := 0
   urlenBody : Option Urlenc.S := none    -- request_urlenp_body
-  txReqBodyHook : Nat := 0
+  reqBodyHooks : List TxHook := []       -- tx->hook_request_body_data
+  mpart : Option Multipart.Parser := none  -- request_mpartp
+  mpartGaveUp : Bool := false              -- request_mpartp->gave_up_data
   -- response
   resProgress : Nat := 0
   resLine : Option Bytes := none
